@@ -80,3 +80,90 @@ def c17(tier, seed):
                   "TLC judges the observation. distinct = distinct (x, y, shared) triples; non-trivial = neither side a primitive",
                   assumptions=["TLC's evaluation of the TLA+ operators is trusted", "pairs beyond depth 3 are not sampled"],
                   exhaustive=False)
+
+
+# ---------------------------------------------------------------------------- evaluation family
+BACKENDS = ("vm", "vmct", "closure", "interp")
+
+
+def per_backend(*names):
+    return {"%s_%s" % (n, b) for n in names for b in BACKENDS}
+
+
+EVAL_REL = {
+    # C01 preservation: the produced value has the inferred type, deeply; a back end dying of a wrong cast counts
+    "C01": per_backend("hastype") | {"total"},
+    # C02 progress: only documented failures, exactly when the semantics says so, never an internal fault
+    "C02": per_backend("nofault", "failclass", "specstuck") | {"total"},
+    # C03 back ends agree with each other (and with the specification's outcome and log)
+    "C03": per_backend("value", "log", "failclass", "accept") | {"agree", "total"},
+    # C04 documented results
+    "C04": per_backend("value") | {"front"},
+    # C05 accept exactly the well-typed programs, infer the rule's type, reject at compile time
+    "C05": per_backend("accept") | {"accept", "type"},
+    # C06 laziness and order: host-call log and outcome
+    "C06": per_backend("log", "value", "failclass"),
+    "C13": {"stdout"},
+    "C16": per_backend("accept", "value", "failclass", "nofault", "hastype") | {"accept", "total"},
+}
+
+
+def eval_key(r):
+    return json.dumps([r.get("e"), r.get("envid"), r.get("env"), r.get("pre"), r.get("style"), r.get("via")], sort_keys=True)
+
+
+def eval_nontrivial(r):
+    """accepted by the checker and containing at least one call or composite literal"""
+    o = r.get("obs", {})
+    return bool(o.get("infer", {}).get("acc")) and r["e"]["k"] in ("call", "sub", "mem", "list", "map", "obj")
+
+
+def eval_stage(run, pid, modes, explore=0, explore_mode="", relevant=None):
+    rel = relevant if relevant is not None else EVAL_REL[pid]
+    base = 0
+    for module, cfg, mode, size in modes:
+        cases, n = run.generate(module, cfg, mode=mode, size=size, idbase=base)
+        base += n
+        obs = run.replay("eval", cases=cases, name="eval_%s_%s" % (mode, size))
+        verdicts = run.validate("Trace_Eval", obs)
+        run.triage("eval", "Trace_Eval", obs, verdicts, rel, key=eval_key, nontrivial=eval_nontrivial)
+    if explore:
+        obs = run.replay("eval", explore=explore, mode=explore_mode, name="eval_explore", idbase=base)
+        verdicts = run.validate("Trace_Eval", obs)
+        run.triage("eval", "Trace_Eval", obs, verdicts, rel, key=eval_key, nontrivial=eval_nontrivial)
+
+
+EVAL_RULE = ("cases: TLC enumerates bounded program universes (each state one program with the specification's own "
+             "check + big-step evaluation; the property is an invariant of those states) and the harness adds seeded "
+             "generated programs; every program goes source text -> real lexer/parser/desugarer/checker -> all four back ends; "
+             "TLC judges each recorded observation (front-end tree, acceptance, type, deep value projection, failure class, "
+             "host-call log). distinct = distinct (program, environment, user functions, notation); non-trivial = accepted "
+             "by the checker and rooted in a call, access or composite literal")
+EVAL_ASSUME = ["TLC's evaluation of the TLA+ operators is trusted",
+               "numbers are judged only on the exact domain of YaeNum (dyadic rationals, tolerance-edge offsets, "
+               "exact big integers, inf/nan); records outside it are counted but their value conjuncts are not judged"]
+
+
+def eval_prop(pid, quick_modes, thorough_modes, quick_explore=0, thorough_explore=0, explore_mode=""):
+    def fn(tier, seed):
+        run = Run(pid, tier, seed)
+        thorough = tier == "thorough"
+        modes = thorough_modes if thorough else quick_modes
+        eval_stage(run, pid, modes, explore=thorough_explore if thorough else quick_explore, explore_mode=explore_mode)
+        run.bounds = dict(universes=[dict(root=m[0], mode=m[2], size=m[3]) for m in modes],
+                          explore=thorough_explore if thorough else quick_explore)
+        return finish(run, "model_checking", EVAL_RULE, assumptions=EVAL_ASSUME)
+    PROPS[pid] = fn
+    REPLAY[pid] = ("eval", "Trace_Eval", EVAL_REL[pid])
+
+
+G = ("Gen_Eval", "Gen_Eval.cfg")
+U1S, U1F, U2 = G + ("u1", 1), G + ("u1", 2), G + ("u2", 1)
+OBJS, PARTIAL, LAZY, OPT = G + ("objs", 1), G + ("partial", 1), G + ("lazy", 1), G + ("opt", 1)
+BI1, BI2 = G + ("builtins", 1), G + ("builtins", 2)
+eval_prop("C01", [OBJS, LAZY], [OBJS, LAZY, OPT, U1F, U2])
+eval_prop("C02", [PARTIAL, LAZY, OPT], [PARTIAL, LAZY, OPT, OBJS, U1F, U2])
+eval_prop("C04", [BI1], [BI2, PARTIAL, U1F])
+eval_prop("C05", [U1S], [U1F, U2, OPT, OBJS])
+eval_prop("C06", [LAZY, PARTIAL], [LAZY, PARTIAL, U1F, U2])
+eval_prop("C16", [OPT], [OPT, U1F])
